@@ -1,9 +1,9 @@
 #!/bin/bash
 # usage: tools/runall.sh [tier] [ids...]  – runs the registered checks one after another, prints one line each
 cd "$(dirname "$0")/.."
-TIER="${1:-quick}"; shift
+TIER="${1:-quick}"; shift; OUT="${RUNALL_OUT:-/tmp}"; mkdir -p "$OUT"
 IDS="$@"; [ -z "$IDS" ] && IDS=$(python3 -c "import json; print(' '.join(c['property_id'] for c in json.load(open('MANIFEST.json'))['checks']))")
 for id in $IDS; do
-  s=$(date +%s); ./check $id $TIER > /tmp/runall-$id.log 2>&1; rc=$?; e=$(date +%s)
-  echo "$id rc=$rc $((e-s))s $(grep -a -c '^VIOLATION' /tmp/runall-$id.log) violations, $(grep -a -c '^KNOWN-FINDING' /tmp/runall-$id.log) known; $(grep -a "^$id $TIER" /tmp/runall-$id.log | cut -c1-120)"
+  s=$(date +%s); ./check $id $TIER > $OUT/runall-$id.log 2>&1; rc=$?; e=$(date +%s)
+  echo "$id rc=$rc $((e-s))s $(grep -a -c '^VIOLATION' $OUT/runall-$id.log) violations, $(grep -a -c '^KNOWN-FINDING' $OUT/runall-$id.log) known; $(grep -a "^$id $TIER" $OUT/runall-$id.log | cut -c1-120)"
 done
